@@ -527,7 +527,9 @@ def gen_grid(ctx: Ctx):
 KNAMES = ["mm_0", "mm_1", "addmm_MatMul-BMM_1", "conv2d", "softmax_3", "gelu", "layer-7_x", "relu"]
 CATS = ["Bmm_fp16", "Conv_fp16", "Scalar", "Pooling", "StcdpHbm", "other", "Broadcast"]
 NOISE = ["-" * 20, "Name        Ideal Cy.", "x.y 100", " lead 100", "two words 12 34", "nocycles", "tab\there 12"]
-ARGVS = [[], [], [], ["-t"], ["--keep_names"], ["--flow"], ["--disable_tb"], ["--keep_prep"]]
+ARGVS = [[], [], [], ["-t"], ["--keep_names"], ["--flow"], ["--disable_tb"], ["--keep_prep"],
+         ["--comm_summarize_seq"], ["--comm_summarize_seq", "--flow"], ["-O", "tid"], ["--drop_globals"],
+         ["-C", "rcu_util", "power_ts4", "prep_queue"]]
 
 
 def rand_case(ctx: Ctx, i):
